@@ -81,7 +81,8 @@ def consistent_intervals(guards):
 
 
 class Engine:
-    def __init__(self, model: Model, inline_depth=4, split_bool=True, keep_props=(), inline_subobjects=False, no_inline=(), split_ifexp=False, fork_props=False):
+    def __init__(self, model: Model, inline_depth=4, split_bool=True, keep_props=(), inline_subobjects=False, no_inline=(), split_ifexp=False, fork_props=False, inline_async=False):
+        self.inline_async = inline_async  # `await self.helper()` of the root object is executed inline (its own awaits havoc the fields)
         self.fork_props = fork_props  # properties with several paths are executed (forked) instead of staying opaque ('prop', ..) atoms
         self.split_ifexp = split_ifexp  # `x = a if c else b` / `return a if c else b` become two paths instead of an ('ite',..) value
         self.no_inline = set(no_inline)  # method names kept as opaque `call` effects (e.g. abstract hooks)
@@ -170,8 +171,11 @@ class Engine:
             return ("fstr", tuple(parts))
         if isinstance(e, ast.Await):
             v = self.ev(e.value, p, fr)
+            ep = p.store.get(("epoch",), 0)
             self.havoc_fields(p)
-            return ("await", v)
+            return ("await", v, ep)
+        if isinstance(e, ast.Starred):
+            return ("star", self.ev(e.value, p, fr))
         if isinstance(e, ast.NamedExpr) and isinstance(e.target, ast.Name):
             v = self.ev(e.value, p, fr)
             p.store[("l", fr["id"], e.target.id)] = v
@@ -613,7 +617,20 @@ class Engine:
             if isinstance(s.value, ast.Call):
                 return [q for q, _ in self.exec_call(s.value, p, fr)]
             if isinstance(s.value, ast.Await):
-                p.effects.append(("await", self.ev(s.value.value, p, fr), s.lineno))
+                inner = s.value.value
+                if self.inline_async and isinstance(inner, ast.Call) and isinstance(inner.func, ast.Attribute) and isinstance(inner.func.value, ast.Name) and inner.func.value.id == "self" \
+                        and fr["self"] == ("self0",) and fr["root_cls"] and fr["depth"] < self.depth:
+                    m = M.find_method(fr["root_cls"], inner.func.attr)
+                    if m is not None and isinstance(m.node, ast.AsyncFunctionDef) and m.name not in self.no_inline and m.kind == "method":
+                        args = [self.ev(a, p, fr) for a in inner.args]
+                        nfr = self.frame(m, fr["self"], args, fr)
+                        out = []
+                        for q in self.block(m.node.body, [p], nfr):
+                            if q.status == "return":
+                                q.status, q.ret = "run", None
+                            out.append(q)
+                        return out
+                p.effects.append(("await", self.ev(s.value.value, p, fr), s.lineno, p.store.get(("epoch",), 0)))
                 self.havoc_fields(p)
                 return [p]
             self.ev(s.value, p, fr)
